@@ -59,3 +59,29 @@ impl Case {
         })
     }
 }
+
+/// Known-deviation models: when the engine disagrees with the reference, try the reference under
+/// each documented deviation (and their combination). Some(signature) if one explains the engine's
+/// answer exactly; None otherwise (⇒ an unexplained mismatch).
+pub fn explain_by_known_deviation(case: &Case, engine_rows: &[Row]) -> Option<String> {
+    let has_all = case.feats.contains("intersect-all") || case.feats.contains("except-all");
+    let has_in = case.feats.contains("in-subquery") || case.feats.contains("not-in-subquery");
+    let mut tries: Vec<(RefOpts, &str)> = vec![];
+    if has_all {
+        tries.push((RefOpts { setop_all_semi_anti: true, in_subquery_two_valued_nested: false }, "setop-all-multiplicity"));
+    }
+    if has_in {
+        tries.push((RefOpts { setop_all_semi_anti: false, in_subquery_two_valued_nested: true }, "in-subquery-two-valued-nested"));
+    }
+    if has_all && has_in {
+        tries.push((RefOpts { setop_all_semi_anti: true, in_subquery_two_valued_nested: true }, "setop-all-multiplicity+in-subquery-two-valued-nested"));
+    }
+    for (opts, sig) in tries {
+        if let Ok(alt) = case.reference_with(opts) {
+            if crate::canon::compare(engine_rows, &alt, &case.mode).is_ok() {
+                return Some(sig.to_string());
+            }
+        }
+    }
+    None
+}
